@@ -82,9 +82,15 @@ use barter::{
     system::config::ExecutionConfig,
 };
 use barter_data::{
+    books::{Level, OrderBook},
     event::{DataKind, MarketEvent},
     streams::consumer::MarketStreamEvent,
-    subscription::trade::PublicTrade,
+    subscription::{
+        book::{OrderBookEvent, OrderBookL1},
+        candle::Candle,
+        liquidation::Liquidation,
+        trade::PublicTrade,
+    },
 };
 use barter_execution::{
     AccountEvent, AccountEventKind, UnindexedAccountSnapshot,
@@ -141,22 +147,50 @@ fn mix(h: u64, x: u64) -> u64 {
 
 /// content of one Item: id (+1, a marker mixes 0), instrument, price, side, exchange time in ms
 fn mix_item(h: u64, event: &MarketEvent<InstrumentIndex, DataKind>) -> u64 {
-    let (price, sell) = match &event.kind {
-        DataKind::Trade(t) => (t.price as u64, (t.side == Side::Sell) as u64),
-        _ => panic!("datasets hold trades only"),
+    let price = event_price(event);
+    let sell = match &event.kind {
+        DataKind::Trade(t) => (t.side == Side::Sell) as u64,
+        DataKind::Liquidation(l) => (l.side == Side::Sell) as u64,
+        _ => 0,
     };
     let h = mix(h, event_id(event) as u64 + 1);
     let h = mix(h, event.instrument.index() as u64);
     let h = mix(h, price);
     let h = mix(h, sell);
     // exchange time in ms relative to `time_ms(0)`
-    mix(h, (event.time_exchange - time_ms(0)).num_milliseconds() as u64)
+    // (an exchange time before `time_ms(0)` is legal: reduced into the hash range instead of wrapping around)
+    mix(h, (event.time_exchange - time_ms(0)).num_milliseconds().rem_euclid(HASH_MOD as i64) as u64)
 }
 
+fn dec_u64(d: Decimal) -> u64 {
+    use rust_decimal::prelude::ToPrimitive;
+    d.to_u64().expect("integer")
+}
+
+/// the dataset position every Item carries, whatever its kind: trade id; amount of the best bid (L1 / order
+/// book snapshot / update); trade count (candle); quantity (liquidation)
 fn event_id(event: &MarketEvent<InstrumentIndex, DataKind>) -> u32 {
     match &event.kind {
         DataKind::Trade(t) => t.id.parse().expect("trade id = dataset position"),
-        _ => panic!("datasets hold trades only"),
+        DataKind::OrderBookL1(l) => dec_u64(l.best_bid.expect("bid").amount) as u32,
+        DataKind::OrderBook(OrderBookEvent::Snapshot(b)) | DataKind::OrderBook(OrderBookEvent::Update(b)) => {
+            dec_u64(b.bids().levels()[0].amount) as u32
+        }
+        DataKind::Candle(c) => c.trade_count as u32,
+        DataKind::Liquidation(l) => l.quantity as u32,
+    }
+}
+
+/// the integer price every Item carries: trade price, best bid price, candle close, liquidation price
+fn event_price(event: &MarketEvent<InstrumentIndex, DataKind>) -> u64 {
+    match &event.kind {
+        DataKind::Trade(t) => t.price as u64,
+        DataKind::OrderBookL1(l) => dec_u64(l.best_bid.expect("bid").price),
+        DataKind::OrderBook(OrderBookEvent::Snapshot(b)) | DataKind::OrderBook(OrderBookEvent::Update(b)) => {
+            dec_u64(b.bids().levels()[0].price)
+        }
+        DataKind::Candle(c) => c.close as u64,
+        DataKind::Liquidation(l) => l.price as u64,
     }
 }
 
@@ -230,9 +264,7 @@ impl<'a> Processor<&'a MarketEvent<InstrumentIndex, DataKind>> for RecInstr {
     type Audit = ();
     fn process(&mut self, event: &'a MarketEvent<InstrumentIndex, DataKind>) {
         self.seen.push(event_id(event));
-        if let DataKind::Trade(t) = &event.kind {
-            self.price = Decimal::try_from(t.price).ok();
-        }
+        self.price = Some(Decimal::from(event_price(event)));
     }
 }
 
@@ -859,21 +891,55 @@ fn run() {
                                 None => (t.as_str(), None),
                             };
                             let (i, p) = t.split_once(':').expect("i:p or R");
+                            // `i:p:K`: the KIND of the Item (every variant of `DataKind` is a legal dataset element):
+                            // `s` trade, sell side; `z` trade of amount 0; `l` OrderBookL1; `b` / `u` order book
+                            // snapshot / update; `c` candle; `q` liquidation. All carry the position and the price
+                            let (p, kind) = match p.split_once(':') {
+                                Some((p, kind)) => (p, kind),
+                                None => (p, "t"),
+                            };
                             let i: usize = i.parse().unwrap();
                             assert!(i < k, "instrument out of range");
                             let p: u32 = p.parse().unwrap();
                             let te = time_ms(at.unwrap_or(pos as i64 + 1));
+                            let book = || OrderBook::new(pos as u64, Some(te), [Level::new(Decimal::from(p), Decimal::from(pos as u64))], [Level::new(Decimal::from(p + 1), Decimal::ONE)]);
+                            let kind = match kind {
+                                "t" | "s" | "z" => DataKind::Trade(PublicTrade {
+                                    id: pos.to_string(),
+                                    price: p as f64,
+                                    amount: if kind == "z" { 0.0 } else { 1.0 },
+                                    side: if kind == "s" { Side::Sell } else { Side::Buy },
+                                }),
+                                "l" => DataKind::OrderBookL1(OrderBookL1 {
+                                    last_update_time: te,
+                                    best_bid: Some(Level::new(Decimal::from(p), Decimal::from(pos as u64))),
+                                    best_ask: None,
+                                }),
+                                "b" => DataKind::OrderBook(OrderBookEvent::Snapshot(book())),
+                                "u" => DataKind::OrderBook(OrderBookEvent::Update(book())),
+                                "c" => DataKind::Candle(Candle {
+                                    close_time: te,
+                                    open: p as f64,
+                                    high: p as f64 + 1.0,
+                                    low: 0.0,
+                                    close: p as f64,
+                                    volume: 0.0,
+                                    trade_count: pos as u64,
+                                }),
+                                "q" => DataKind::Liquidation(Liquidation {
+                                    side: Side::Sell,
+                                    price: p as f64,
+                                    quantity: pos as f64,
+                                    time: te,
+                                }),
+                                other => panic!("bad kind {other}"),
+                            };
                             MarketStreamEvent::Item(MarketEvent {
                                 time_exchange: te,
                                 time_received: te,
                                 exchange: EXCHANGE,
                                 instrument: InstrumentIndex(i),
-                                kind: DataKind::Trade(PublicTrade {
-                                    id: pos.to_string(),
-                                    price: p as f64,
-                                    amount: 1.0,
-                                    side: Side::Buy,
-                                }),
+                                kind,
                             })
                         })
                         .collect();
@@ -1119,6 +1185,101 @@ fn gen_case(out: &mut Out, rng: &mut Rng, id: &str, len: usize, runs: &[(usize, 
     }
 }
 
+/// Input-domain family (cases `x<n>`, own PRNG stream): small datasets whose Items are of EVERY `DataKind` (trade buy /
+/// sell / amount 0, L1, order book snapshot / update, candle, liquidation), exchange times 0 / negative (before the engine
+/// start and the initial balance time) / all equal / decreasing together with TRADING strategies, plan quantities that fit
+/// the balances exactly or exceed them by one (base 100; quote 100000 = 2000 @ 50 = 1000 @ 100, 1961 @ 51 is too much),
+/// every eighth case an EMPTY dataset (`MarketDataInMemory::new` panics), every eighth a `run 0 w` (no backtest at all)
+fn gen_dom_case(out: &mut Out, rng: &mut Rng, id: &str, c: usize, runs: &[(usize, usize)]) {
+    out.case(id);
+    let k = rng.range(1, 3) as usize;
+    let len = if c % 8 == 5 { 0 } else { rng.range(1, 14) as usize };
+    let time_mode = rng.below(4); // 0 = dataset order, 1 = all equal, 2 = zero / negative / decreasing, 3 = mixed
+    let mut toks: Vec<String> = Vec::new();
+    if rng.chance(30) {
+        toks.push("R".into());
+    }
+    for pos in 0..len {
+        let i = rng.below(k as u64) as usize;
+        let p = 50 + 50 * i as i64 + rng.range(0, 2);
+        let kind = *rng.pick(&["", "", ":s", ":z", ":l", ":b", ":u", ":c", ":q"]);
+        let at = match time_mode {
+            0 => String::new(),
+            1 => "@7".to_string(),
+            2 => format!("@{}", *rng.pick(&[0i64, 0, -5, -2000, -(pos as i64), 3])),
+            _ => format!("@{}", *rng.pick(&[0i64, -5, 7, 7, 1000, pos as i64])),
+        };
+        toks.push(format!("{i}:{p}{kind}{at}"));
+        if pos + 1 < len && rng.chance(15) {
+            toks.push("R".into());
+        }
+    }
+    if len > 0 && rng.chance(25) {
+        toks.push("R".into());
+    }
+    out.line(format!("data {k} {}", toks.join(" ")).trim_end().to_string());
+    let n_strats = rng.range(1, 3);
+    for s in 0..n_strats {
+        if s == 0 && rng.chance(25) {
+            out.line("strat -");
+            continue;
+        }
+        let mut line = String::from("strat");
+        for _ in 0..rng.range(1, 4) {
+            let trigger = match rng.below(3) {
+                0 => 1,
+                1 => len.max(1) as i64,
+                _ => rng.range(1, len.max(1) as i64),
+            };
+            let i = rng.below(k as u64);
+            let (side, qty) = *rng.pick(&[("B", 1i64), ("S", 1), ("S", 100), ("S", 101), ("S", 99), ("B", 2000), ("B", 2001), ("B", 1960), ("B", 1961), ("B", 1000), ("B", 1001), ("S", 5000)]);
+            line.push_str(&format!(" {trigger}:{i}:{side}:{qty}"));
+        }
+        out.line(line);
+    }
+    for (n, w) in runs {
+        out.line(format!("run {n} {w}"));
+    }
+    if c % 8 == 2 {
+        out.line(format!("run 0 {}", *rng.pick(&[0usize, 4])));
+    }
+}
+
+/// Input-domain long datasets (cases `LX<n>`): the `longdata` parameters the long family never draws - ONE instrument,
+/// `tm = 0` (every Item carries the same exchange time), `pm = 1` (one price per instrument), every other element a marker
+/// (`rp = 2`, starting with a marker or with an Item), and `rp = 1` (markers only: `MarketDataInMemory::new` panics)
+fn gen_long_dom_case(out: &mut Out, rng: &mut Rng, c: usize, runs: &[(usize, usize)]) {
+    let n = *rng.pick(&[3usize, 257, 2049, 4097]);
+    out.case(format!("LX{c}_{n}"));
+    let (k, rp, ro, pm, tm): (usize, usize, usize, usize, usize) = match c % 6 {
+        0 => (rng.range(2, 3) as usize, 0, 0, 7, 0),
+        1 => (1, 0, 0, 13, 1),
+        2 => (2, 2, 0, 7, 3),
+        3 => (3, 2, 1, 1, 0),
+        4 => (1, 7, 3, 1, 0),
+        _ => (2, 1, 0, 7, 1),
+    };
+    out.line(format!("longdata {n} {k} {rp} {ro} {pm} {tm}"));
+    let items = (0..n).filter(|pos| !(rp > 0 && pos % rp == ro)).count() as i64;
+    let mut line = String::from("strat");
+    for _ in 0..rng.range(2, 5) {
+        let trigger = match rng.below(4) {
+            0 => 1,
+            1 => items.max(1),
+            _ => rng.range(1, items.max(1)),
+        };
+        let side = if rng.chance(60) { "B" } else { "S" };
+        line.push_str(&format!(" {trigger}:{}:{side}:{}", rng.below(k as u64), rng.range(1, 3)));
+    }
+    out.line(line);
+    if rng.chance(50) {
+        out.line("strat -");
+    }
+    for (m, w) in runs {
+        out.line(format!("run {m} {w}"));
+    }
+}
+
 /// dataset lengths around and beyond powers of two and typical buffer / block sizes
 const LONG_LENS: [usize; 13] = [1, 2, 1023, 1024, 1025, 4095, 4097, 8191, 8192, 8193, 16385, 20000, 65537];
 
@@ -1247,6 +1408,20 @@ fn generate(seed: u64, n_cases: usize, tier: &str) {
                 runs.push((lrng.range(2, 4) as usize, 0));
             }
             gen_long_case(&mut out, &mut lrng, &format!("L{n}"), n, &runs);
+        }
+    }
+    // input-domain families (own PRNG streams, so every case above stays as it is)
+    if n_cases > 0 {
+        let mut xrng = Rng::new(seed ^ 0x444f_4d58);
+        let n_x = (n_cases / 5).max(1);
+        for c in 0..n_x {
+            let runs = [*xrng.pick(shapes), *xrng.pick(&[(2usize, 4usize), (8, 4), (2, 1), (3, 0)])];
+            gen_dom_case(&mut out, &mut xrng, &format!("x{}", c + 1), c + (seed as usize % 8), &runs);
+        }
+        let n_lx = if thorough { 12 } else { 2 };
+        for c in 0..n_lx {
+            let runs = [(1usize, *xrng.pick(&[0usize, 4])), (xrng.range(2, 3) as usize, *xrng.pick(&[1usize, 4]))];
+            gen_long_dom_case(&mut out, &mut xrng, c + (seed as usize % 6) * (!thorough) as usize, &runs);
         }
     }
     out.flush();
